@@ -444,7 +444,7 @@ func (t *vC19) merge(list []vRS) {
 func init() {
 	vRegister(&vCheck{
 		ID: "C19", Level: "exploration", Engine: "domainmc",
-		Rule:        "Exhaustive lattice: ALL result lists of length 0..3 (quick) / 0..4 (thorough) over ids {1,2,3} x scores {-1, 0, 1, 2.5, +Inf, -Inf, NaN}: vector and text aggregation x {sum,max,mean} (each id once, value, best-first order for NaN-free inputs, independence of EVERY permutation of the input), LimitResults for k in -2..7; Autocut/AutocutResults for cutoff in -2..6 on EVERY score list of length 0..5 over the score alphabet (no panic, prefix, identity when disabled); fusion on ALL pairs of the 125 score maps over ids {1,2,3} x 4 scores (ties included) x {weighted sum (1,1),(0.3,0.7),(0,1), default, RRF K in {1,60}, max, min} (key set, values, inputs unchanged; RRF ties: any consistent ranking, origin 0 or 1); mergeResults/sortResultsByScore on all NaN-free lists of length 0..4. Non-trivial = distinct inputs with a repeated id (aggregate/merge), an actual truncation (limit/autocut), or two non-empty maps (fusion).",
+		Rule:        "Exhaustive lattice: ALL result lists of length 0..3 (quick) / 0..4 (thorough) over ids {1,2,3} x scores {-1, 0, 1, 2.5, +Inf, -Inf, NaN}: vector and text aggregation x {sum,max,mean} (each id once, value, best-first order for NaN-free inputs, independence of EVERY permutation of the input), LimitResults for k in -2..7; Autocut/AutocutResults for cutoff in -2..6 on EVERY score list of length 0..5 over the score alphabet (no panic, prefix, identity when disabled); fusion on ALL pairs of the 343 score maps over ids {1,2,3} x 6 scores (negative, zero, ties included) x {weighted sum (1,1),(0.3,0.7),(0,1), default, RRF K in {1,60}, max, min} (key set, values, inputs unchanged; RRF ties: any consistent ranking, origin 0 or 1); mergeResults/sortResultsByScore on all NaN-free lists of length 0..4. Non-trivial = distinct inputs with a repeated id (aggregate/merge), an actual truncation (limit/autocut), or two non-empty maps (fusion).",
 		Assumptions: []string{"NaN propagation in aggregation is implementation-defined and not judged", "float tolerance 1e-5 relative"},
 		Shards: func(tier string) []vShard {
 			var sh []vShard
@@ -500,16 +500,13 @@ func init() {
 				part := part
 				sh = append(sh, vShard{Name: fmt.Sprintf("fusion/part%d", part), Run: func(c *vCtx) {
 					t := &vC19{c: c, cfgS: "fusion"}
-					maps := vAllMaps([]float64{0.5, 1, 1.0000001, 2})
-					maps2 := vAllMaps([]float64{0, 0.25, 3, -1})
+					// zero and negative scores included (a distance of exactly 0 is an exact match)
+					maps := vAllMaps([]float64{-1, 0, 0.5, 1, 1.0000001, 2})
 					for i, v := range maps {
 						if i%5 != part {
 							continue
 						}
 						for _, x := range maps {
-							t.fusion(v, x)
-						}
-						for _, x := range maps2 {
 							t.fusion(v, x)
 						}
 					}
